@@ -166,14 +166,14 @@ def doubles(m1: int, site: int, mut: int, rsel: int, tag: str, vsel: int,
 
 CONDITIONS = [
     {'fn': 'doubles', 'slices': pipeline.double_slices(), 'quick': None,
-     'thorough': 500,
-     'bound': 'TWO simultaneous mutations on the first base document of 8 '
+     'thorough': 300,
+     'bound': 'TWO simultaneous mutations on the first base document of 4 '
               'models: one slice per first site; first mutation = drop the '
               'entry / set one of 3 values / retag str or int; second '
               'mutation = any single-point mutation of the quick palettes at '
               'any other site'},
     {'fn': 'mutants', 'slices': pipeline.ALL_SLICES,
-     'quick_slices': pipeline.QUICK_SLICES, 'quick': 110, 'thorough': 600,
+     'quick_slices': pipeline.QUICK_SLICES, 'quick': 110, 'thorough': 300,
      'bound': pipeline.MUTANT_BOUND},
     {'fn': 'mutants_reach',
      'slices': [pipeline.slice_for('plain', 0, 2)],
